@@ -28,7 +28,7 @@ id,n,place,src=sys.argv[1:5]
 try: notes=open(src+'/notes.md').read()
 except Exception: notes=''
 lines=[l.strip() for l in notes.split('\n') if l.strip() and not l.startswith('#')]
-json.dump({"property":id,"breaks":id,"wave":3,"demo_package":place,"needs_to_manifest":(' '.join(lines[:3]))[:600],
+json.dump({"property":id,"breaks":id,"wave":int(n)-2,"demo_package":place,"needs_to_manifest":(' '.join(lines[:3]))[:600],
  "confirmed":{"applies_and_builds":True,"existing_suite_passes_with_change":True,"demo_fails_with_change":True,"demo_passes_without_change":True,
  "commands":["cp -r /repo <scratch>; patch -p1 < patch.diff","go test -vet=off -count=1 ./...","go test -vet=off -count=1 ./%s (with demo_test.go placed there as zz_seed_demo_test.go)"%place]},
  "caught_by":[]},open('/verif/seeded/%s-mut%s/meta.json'%(id,n),'w'),indent=1)
